@@ -8,7 +8,63 @@ BASELINE = ("cd /repo && /venv/bin/python -m pytest -ra -q -p no:cacheprovider -
             "--continue-on-collection-errors")
 
 # id -> (technique, level text, level note, design ref)
+SCHED_NOTE = ('Trusted: Lean kernel (+propext, Classical.choice, Quot.sound); the hand-written model MLPE.Eng of manager.py / '
+              'storage.py / graph.py / chart.py (all constructs, suspending collaborators, cancellation); the sampled lock-step '
+              'correspondence (every loop handle of every explored trace compared); asyncio facts A1–A7 (DESIGN §1.2); the launch '
+              'order of nx.topological_sort is an oracle input validated by the model; real thread/process timing is not modelled.')
+SCHED_TIE = (' Tie: every run drives the real engine from /repo on a hand-stepped event loop over generated programs × schedules '
+             '(run-to-quiescence, early injections and bursts, all quiescent orders of small programs, corpus of past defects) and '
+             'replays each trace handle by handle on the model (lock-step); the property monitors (Lean Sem as oracle inside the '
+             'fragments) turn a broken tie into a concrete failing input.')
+
+
+def sched(text, ref):
+    return ('Lean 4 theorems about the executable engine model MLPE.Eng + lock-step correspondence with the real engine',
+            text + SCHED_TIE, SCHED_NOTE, ref)
+
+
 CLAIMED = {
+    'C03': sched('Proof (general, local tier): in the model a node is launched only in a section where `ready` holds — every '
+                 '(resolved) source has a stored, visible, non-Recurrent result — and its kwargs are exactly the stored results '
+                 'of its sources under the declared names; the input node gets the caller\'s kwargs (C03_* in Props/C03.lean, all '
+                 'programs, all states). That stored results are final is C01\'s invariant (partial: tied and monitored against Sem '
+                 'inside the fragments, not yet a theorem).', '§6 C03'),
+    'C04': sched('Proof (full strength on the model): for every program with any mix of constructs and every interleaving, in every '
+                 'reachable state executions(n) ≤ 1 + hides(n) (C04_at_most_once_per_iteration, invariant proved by induction over '
+                 'all choice sequences); a second request takes the waiting path; consumers read the single stored result.',
+                 '§6 C04'),
+    'C05': sched('Proof (general, local tier): the outcome computed by manager.run/chart.run is the exception of a *finished, '
+                 'non-cancelled* engine task (wrapped iff it is an Exception) or, when no task failed, the stored output value '
+                 '(C05_* in Props/C05.lean). Partial: that a task fails only if a required node failed is tied by lock-step and '
+                 'monitored against Sem in the fragments.', '§6 C05'),
+    'C09': sched('Proof (general, local tier): _run_switch selects exactly a declared case whose label is the stored result of the '
+                 'decision node, records it, runs input→case inline; an unmatched label wakes run() and fails with SwitchNoCase; '
+                 'case edges are invisible in every reduced DAG (C09_*). Partial: routing/liveness under all schedules is tied and '
+                 'monitored (private cases).', '§6 C09'),
+    'C10': sched('Proof (general, local to _run_oneof): candidates are opened and started strictly in declared order, the next only '
+                 'after a recorded failure of the current one, none after a success; unopened candidates are invisible; exhaustion '
+                 'yields OneOfDoesNotHaveResultError, contained when nested (C10_*). Partial: first-success semantics under all '
+                 'schedules is tied and monitored (private candidates).', '§6 C10'),
+    'C11': sched('Proof (general, local to _run_recurrent_subgraph): iteration k runs only if k < max_iterations and hands the data to '
+                 'the start node; exhaustion gives default iff opted in else the recurrent error; a Recurrent result never unlocks '
+                 'consumers; re-execution needs a hide (with C04) (C11_*). Partial: consumers-see-final-only under all schedules is '
+                 'tied and monitored (private subgraphs).', '§6 C11'),
+    'C12': ('Lean 4 proof of the retry loop specification + lifting lemmas into the engine model; exhaustive-grid correspondence',
+            'Proof (full strength): Retry.run — the attempt loop of __execute_node with NodeRetryPolicy defaults — invokes the body '
+            'exactly m = min(first non-retryable-or-success, attempts) times, sleeps `delay` between attempts, and yields value / '
+            'default / last exception as specified, for every configuration and every outcome sequence (C12_spec, C12_stops, …); '
+            'the engine model applies exactly these decisions for any node in any pipeline (C12_engine_*). Tie: the whole grid of '
+            'configurations × outcome sequences (≤4) runs on the real engine with a virtual clock and is compared with Retry.run; '
+            'retry-heavy general pipelines are lock-stepped and monitored (same arguments on every attempt).',
+            SCHED_NOTE + ' exceptions ⊆ Exception and attempts ≥ 0 as annotated.', '§6 C12'),
+    'C13': sched('Proof (general, local tier): manager.run\'s cleanup leaves every other task finished or cancel-marked, on normal end, '
+                 'error, and caller cancellation; a cancel-marked task\'s next section ends it silently (only its own `done`, no new '
+                 'task); marks are stable; caller cancellation surfaces as CancelledError only (C13_*). Tie additionally cancels the '
+                 'caller before every loop handle of a base schedule per program and drains the loop afterwards.', '§6 C13'),
+    'C14': sched('Proof (general, local tier): on_pipeline_start first; on_pipeline_complete carries the returned outcome; a node '
+                 'execution starts with on_node_start in the section that marks it processed; one on_node_complete per raising '
+                 'attempt, error=None iff a value/default; the value is stored strictly after the successful on_node_complete '
+                 'returned, even when callbacks suspend (C14_*).', '§6 C14'),
     'C18': (
         'Lean 4 refinement proof (model refines write-once map) + differential correspondence on op sequences',
         'Proof: MLPE.Store (model of FileSystemArtifactStore after the fix commit) refines a write-once finite map keyed by '
@@ -18,6 +74,9 @@ CLAIMED = {
         'Trusted: Lean kernel (+propext, Classical.choice, Quot.sound); the hand-written model; the sampled correspondence; '
         'pickle/json round trip is a hypothesis (sampled); pathlib/OS file semantics modelled as a finite map.',
         '§6 C18'),
+    'C19': sched('Proof (general, local tier): the model calls the artifact store only in nodePost, iff the task executed the node '
+                 'itself and the result is a real value (never a Recurrent marker, a contained failure or a duplicate), with the value '
+                 'just stored (C19_*). Recurrent re-iterations re-save inner nodes: listed finding.', '§6 C19'),
 }
 
 ALL = [f'C{i:02d}' for i in range(1, 21)]
